@@ -600,10 +600,11 @@ theorem honest_new_block_upgrade_accepted_at (C : Crypto) (hC : HashWF C) (bs : 
       ∧ cs'.fork = c.tree.fork ∧ c.tree.commitable cs' = true ∧ (∀ x ∈ cs'.nodes, ∃ dd o, x = nodeAt C bs dd o ∧ (o + 1) * 2 ^ dd ≤ n)
       ∧ ClosedAt C bs n (vt c.tree cs') d.tree ∧ nodeAt C bs 0 i ∈ cs'.nodes
       ∧ cs'.ancestors = c.tree.length ∧ cs'.origLength = c.tree.length ∧ cs'.hash = some (rootsHash C cs'.roots)
-      ∧ cs'.nodes.length ≤ 64 + 2 * us.length + (2 * k + 1) := by
+      ∧ cs'.nodes.length ≤ 64 + 2 * us.length + (2 * k + 1)
+      ∧ ∃ csg, cs' = addOld (upPath C bs 0 i k ++ [nodeAt C bs 0 i]) csg ∧ Inv C bs c.tree d.tree csg n ∧ nodeAt C bs k (i / 2 ^ k) ∈ csg.nodes := by
   have hN : n < 2 ^ 64 := by have := h.small.1; omega
   have hcov := up_cover m n _ 0 us (cover_roots n) hup
-  generalize hdiv : i / 2 ^ k = o at hsplit
+  generalize hdiv : i / 2 ^ k = o at hsplit ⊢
   subst hsplit
   have hp : (k, o) ∈ a ++ (k, o) :: b := by simp
   have hbound := up_bound m n _ 0 _ (cover_roots n) hup (k, o) hp
@@ -681,7 +682,8 @@ theorem honest_new_block_upgrade_accepted_at (C : Crypto) (hC : HashWF C) (bs : 
     | zero => intro dd oo; rfl
     | succ kk ihk => intro dd oo; simp only [upPath, List.length_append, ihk, List.length_cons, List.length_nil]; omega
   refine ⟨addOld (upPath C bs 0 i k ++ [nodeAt C bs 0 i]) csg, hbound, hlow, ?_, hroots, g2.length, g2.bytes, g7, g5, g4, ?_, ?_, hclosed, ?_,
-    by rw [show (addOld _ csg).ancestors = csg.ancestors from rfl, g10]; rfl, by rw [show (addOld _ csg).origLength = csg.origLength from rfl, g8]; rfl, g11, ?_⟩
+    by rw [show (addOld _ csg).ancestors = csg.ancestors from rfl, g10]; rfl, by rw [show (addOld _ csg).origLength = csg.origLength from rfl, g8]; rfl, g11, ?_,
+    ⟨csg, rfl, g2, by simpa [Changeset.nodes] using hRin⟩⟩
   · unfold verifyProof
     simp only [verifyTree, untrustedOf, noSeekOf, Option.isNone_some, Bool.false_and, Bool.false_eq_true,
       ite_false, seekHalf, andThen, mainHalf, hnew, plainQueue_eq, hleaf, hrn, hc]
@@ -727,7 +729,8 @@ theorem honest_new_block_upgrade_accepted (C : Crypto) (hC : HashWF C) (bs : Arr
       ∧ cs'.ancestors = c.tree.length ∧ cs'.origLength = c.tree.length ∧ cs'.hash = some (rootsHash C cs'.roots)
       ∧ cs'.nodes.length ≤ 64 + 2 * us.length + (2 * k + 1) := by
   obtain ⟨a, b, k, hsplit⟩ := split_exists m n us hup i hmi hi
-  obtain ⟨cs', hrest⟩ := honest_new_block_upgrade_accepted_at C hC bs m n c d held h hm0 hmn hn us hup sig hsl hver i a b k hsplit
-  exact ⟨a, b, k, cs', hsplit, hrest⟩
+  obtain ⟨cs', r1, r2, r3, r4, r5, r6, r7, r8, r9, r10, r11, r12, r13, r14, r15, r16, r17, _⟩ :=
+    honest_new_block_upgrade_accepted_at C hC bs m n c d held h hm0 hmn hn us hup sig hsl hver i a b k hsplit
+  exact ⟨a, b, k, cs', hsplit, r1, r2, r3, r4, r5, r6, r7, r8, r9, r10, r11, r12, r13, r14, r15, r16, r17⟩
 
 end HC.BlockNew
